@@ -26,6 +26,9 @@ Open Scope Z_scope.
 Definition gerror := option Z.
 Definition gnil : gerror := None.
 Definition is_nil (e : gerror) : bool := match e with None => true | Some _ => false end.
+(* err == <package-level error variable with code c> (the translator checks that no other error
+   value that can reach the comparison has the same code) *)
+Definition gerr_is (e : gerror) (c : Z) : bool := match e with Some c' => c' =? c | None => false end.
 
 (* Identity of error values, by the qualified NAME of the Go variable that holds them
    ("<pkg>.<var>"), or "<pkg>.<func>#<constructor>" for an error built on the spot
